@@ -461,7 +461,7 @@ class UploadNonSeekableInputManager(UploadInputManager):
         """
         # If the the initial data is empty, we simply read from the fileobj
         if len(self._initial_data) == 0:
-            return fileobj.read(amount)
+            return self._read_fully(fileobj, amount)
 
         # If the requested number of bytes is less than the amount of
         # initial data, pull entirely from initial data.
@@ -477,12 +477,34 @@ class UploadNonSeekableInputManager(UploadInputManager):
         # satisfy the number of bytes requested. Pull out the remaining
         # initial data and read the rest from the fileobj.
         amount_to_read = amount - len(self._initial_data)
-        data = self._initial_data + fileobj.read(amount_to_read)
+        data = self._initial_data + self._read_fully(fileobj, amount_to_read)
 
         # Zero out initial data so we don't hang onto the data any more.
         if truncate:
             self._initial_data = b''
         return data
+
+    def _read_fully(self, fileobj, amount):
+        """
+        Reads ``amount`` bytes from a stream unless the stream ends first.
+
+        A single read() of a raw stream, pipe or socket may return fewer
+        bytes than requested although more data follows, so keep reading
+        until the requested amount has been collected or the stream is
+        exhausted.
+        """
+        data = fileobj.read(amount)
+        if not data or len(data) >= amount:
+            return data
+        chunks = [data]
+        remaining = amount - len(data)
+        while remaining > 0:
+            chunk = fileobj.read(remaining)
+            if not chunk:
+                break
+            chunks.append(chunk)
+            remaining -= len(chunk)
+        return b''.join(chunks)
 
     def _wrap_data(self, data, callbacks, close_callbacks):
         """
